@@ -48,6 +48,7 @@ Theorem C12_alias_anything_single : forall g imp f,
 Proof. exact (alias_anything_single ceqb ceqb_spec rmatch). Qed.
 
 Theorem C12_alias_anything : forall g imp Ss,
+  removed_unknown ceqb g Ss = false ->      (* every subject the rewrite removes is a module; otherwise C13_alias_unknown_name *)
   verdict ceqb rmatch g (any_cfg imp Ss) =
   verdict ceqb rmatch g (mk ShouldNot imp true (drop_children ceqb Ss) (drop_children ceqb Ss)).
 Proof. exact (alias_anything ceqb rmatch). Qed.
